@@ -418,7 +418,7 @@ def check(prop, tier):
         nreg = 0
         for path in reg:
             st = stage_for_case(stages, path)
-            r = run_replay(bins[st["binary"]], prop, path, extra=st.get("extra"))
+            r = run_replay(bins[st["binary"]], prop, path, extra=stage_extra(st))
             nreg += 1
             if r["crashed"] or (r["json"] and r["json"]["reportable"] > 0):
                 violations.append((path, "regression case fails: " + describe(r)))
@@ -436,7 +436,7 @@ def check(prop, tier):
             still = None
             if f.get("replay") and os.path.exists(rp):
                 st = stage_for_case(stages, rp)
-                r = run_replay(bins[st["binary"]], prop, rp, known=False, extra=st.get("extra"), timeout=300)
+                r = run_replay(bins[st["binary"]], prop, rp, known=False, extra=stage_extra(st), timeout=300)
                 still = r["crashed"] or r.get("timeout") or (r["json"] and r["json"]["reportable"] > 0)
             if still is False:
                 notes.append("STALE-FINDING property=%s id=%s no longer reproduces (%s)" % (prop, f.get("id"), f["desc"]))
@@ -555,6 +555,13 @@ def merge_into(a, m):
     a["samples"] += m["samples"][:3]
 
 
+def stage_extra(st):
+    ex = list(st.get("extra") or [])
+    if st.get("param"):
+        ex += ["--param", st["param"]]
+    return ex or None
+
+
 def stage_for_case(stages, path):
     """regress / finding replay files may carry a stage hint in a side file <case>.stage"""
     hint = None
@@ -583,7 +590,7 @@ def describe(r):
 def triage(binary, prop, st, fl):
     """Returns None (nothing reportable), ('flaky', text) or ('violation', replay path, description)."""
     path = fl["case"]
-    extra = st.get("extra")
+    extra = stage_extra(st)
     if fl["type"] == "hang":
         r = run_replay(binary, prop, path, extra=extra, timeout=120, trace=True)
         if r.get("timeout"):
@@ -733,7 +740,7 @@ def cmd_replay(prop, path):
     stages = spec["stages"]("quick")
     st = stage_for_case(stages, path)
     bins = vbuild.build([st["binary"]])
-    r = run_replay(bins[st["binary"]], prop, path, extra=st.get("extra"), trace=True)
+    r = run_replay(bins[st["binary"]], prop, path, extra=stage_extra(st), trace=True)
     sys.stdout.write(r["stderr"][-8000:])
     if r["json"]:
         print(json.dumps(r["json"], indent=1)[:20000])
